@@ -378,4 +378,204 @@ theorem leafGood_missing (F : FloatLib) (a : Str) (h : NFLeaf F (.missing a) = t
     (fun e => absurd e missingField_ne_default) (fun e => absurd e missingField_ne_default)
     (by simp [visitValue, missing_ne_exists, unescape_rawTerm a h])
 
+
+/-! ### terms -/
+
+theorem luceneEscape_ne_nil (v : Str) (h : v ≠ []) : luceneEscape v ≠ [] := by
+  cases v with
+  | nil => exact absurd rfl h
+  | cons c v => by_cases hs : isLuceneSpecial c = true <;> simp [luceneEscape, hs]
+
+theorem unescape_attr (a : Str) (h : attrOK a = true) : unescape a = a := by
+  simp only [attrOK, Bool.or_eq_true, decide_eq_true_eq] at h
+  cases h with
+  | inl h => subst h; exact unescape_default
+  | inr h => exact unescape_rawTerm a h
+
+theorem notReserved_parts {a : Str} (h : notReserved a = true) : a ≠ existsField ∧ a ≠ missingField := by
+  simp only [notReserved, Bool.not_eq_true', Bool.or_eq_false_iff, decide_eq_false_iff_not] at h
+  exact h
+
+/-- front facts of text printed by `lucene_escape` -/
+theorem esc_front (v rest : Str) (h : escTermOK v = true) (hk : kwStart v = false) (hr : termStop rest = true) :
+    matchall (luceneEscape v ++ rest) = none ∧ skipWs (luceneEscape v ++ rest) = luceneEscape v ++ rest ∧
+    modifiers (luceneEscape v ++ rest) = none := by
+  obtain ⟨hne, hw, _⟩ := escTermOK_parts h
+  exact termHead_front _ (termHead_escape v rest hne hw) (kwStart_not (kwStart_escape v rest hr hk))
+
+theorem visit_term (F : FloatLib) (a v : Str) (ha : attrOK a = true) (hn : notReserved a = true) :
+    visitValue F a (.term (luceneEscape v)) = .ok (.leaf (.term a v)) := by
+  obtain ⟨h1, h2⟩ := notReserved_parts hn
+  simp [visitValue, h1, h2, unescape_attr a ha, unescape_luceneEscape]
+
+theorem term_end_none (rest : Str) (h : QEnd rest) : term rest = none := by
+  cases h with
+  | inl h => subst h; rfl
+  | inr h => obtain ⟨r, rfl⟩ := h; rfl
+
+/-- a default-field term alone in its (sub)query is read by `multiterm` -/
+theorem multiterm_default_end (v rest : Str) (h : escTermOK v = true) (hk : kwStart v = false) (hr : QEnd rest) :
+    multiterm (luceneEscape v ++ rest) = some ([luceneEscape v], rest) := by
+  have ht := term_esc v rest h hk hr.itemEnd.termStop
+  have hs := (esc_front v rest h hk hr.itemEnd.termStop).2.1
+  have hla : multitermLookahead (luceneEscape v ++ rest) = true := by
+    simp only [multitermLookahead, ht]
+    cases hr with
+    | inl e => subst e; rfl
+    | inr e => obtain ⟨r, rfl⟩ := e; rfl
+  have hla2 : multitermLookahead rest = false := by
+    simp [multitermLookahead, term_end_none rest hr]
+  simp only [multiterm, hla, if_true, hs, ht, skipWs_QEnd hr, hla2]
+  simp
+
+theorem multiterm_default_sep (v x : Str) (op : BoolOp) (h : escTermOK v = true) (hk : kwStart v = false) :
+    multiterm (luceneEscape v ++ (sepOf op ++ x)) = none := by
+  have hstop : termStop (sepOf op ++ x) = true := by cases op <;> rfl
+  have ht := term_esc v (sepOf op ++ x) h hk hstop
+  have hla : multitermLookahead (luceneEscape v ++ (sepOf op ++ x)) = false := by
+    simp only [multitermLookahead, ht]
+    cases op <;> rfl
+  simp [multiterm, hla]
+
+theorem itemEnd_cases {rest : Str} (h : ItemEnd rest) : QEnd rest ∨ ∃ op x, rest = sepOf op ++ x := by
+  rcases h with h | ⟨r, h⟩ | ⟨r, h⟩ | ⟨r, h⟩
+  · exact Or.inl (Or.inl h)
+  · exact Or.inl (Or.inr ⟨r, h⟩)
+  · exact Or.inr ⟨.and, r, by simp [h, sepOf, andSep]⟩
+  · exact Or.inr ⟨.or, r, by simp [h, sepOf, orSep]⟩
+
+theorem leafGood_term (F : FloatLib) (a v : Str) (h : NFLeaf F (.term a v) = true) : LeafGood F (.term a v) := by
+  simp only [NFLeaf, Bool.and_eq_true, Bool.not_eq_true'] at h
+  obtain ⟨⟨⟨ha, hn⟩, hv⟩, hk⟩ := h
+  obtain ⟨hne, hw, _⟩ := escTermOK_parts hv
+  by_cases hd : a = defaultField
+  · subst hd
+    have hL : (Leaf.term defaultField v).toLucene F = luceneEscape v := by
+      show attrPrefix defaultField ++ luceneEscape v = luceneEscape v
+      rw [attrPrefix_default]; rfl
+    have hvis : visitClause F (.value none (.term (luceneEscape v))) defaultField = .ok (.leaf (.term defaultField v)) := by
+      simpa [visitClause] using visit_term F defaultField v ha hn
+    have hcl : ∀ fuel rest, ItemEnd rest →
+        clause (fuel + 1) ((Leaf.term defaultField v).toLucene F ++ rest) = .ok (.value none (.term (luceneEscape v))) rest := by
+      intro fuel rest hr
+      rw [hL]
+      obtain ⟨h1, h2, _⟩ := esc_front v rest hv hk hr.termStop
+      exact clause_value fuel _ none _ _ rest h1
+        (Or.inl ⟨field_none_of_term _ _ rest (term_esc v rest hv hk hr.termStop) hr.not_colon, rfl, h2.symm⟩)
+        (value_esc_term v rest hv hk hr)
+    refine ⟨?_, ⟨_, hcl, hvis⟩, ?_, ?_, by rw [hL]; exact luceneEscape_ne_nil v hne⟩
+    · intro fuel rest hr
+      cases itemEnd_cases hr with
+      | inl hq =>
+        refine ⟨.multiterm [luceneEscape v], ?_, ?_⟩
+        · rw [hL, item, multiterm_default_end v rest hv hk hq]
+        · intro tail st
+          simp [PItem.cons, visitItems, visitMultiterm, joinSpace, unescape_luceneEscape, VState.conj]
+      | inr hs =>
+        obtain ⟨op, x, rfl⟩ := hs
+        refine ⟨.clause none none (.value none (.term (luceneEscape v))), ?_, pushes_clause F none _ _ hvis⟩
+        have := hcl fuel _ hr
+        rw [hL] at this ⊢
+        obtain ⟨_, h2, h3⟩ := esc_front v (sepOf op ++ x) hv hk hr.termStop
+        exact item_first_plain (fuel + 1) _ _ _ (multiterm_default_sep v x op hv hk) h3 h2 this
+    · intro x; rw [hL]; exact skipWs_termHead _ (termHead_escape v x hne hw)
+    · intro rest hr; rw [hL]; exact (esc_front v rest hv hk hr.termStop).2.2
+  · exact leafGood_attr F (.term a v) a (luceneEscape v) (.term (luceneEscape v)) rfl ha
+      (fun rest hr => value_esc_term v rest hv hk hr)
+      (fun x => skipWs_termHead _ (termHead_escape v x hne hw)) (luceneEscape_ne_nil v hne)
+      (fun e => absurd e hd) (fun e => absurd e hd) (visit_term F a v ha hn)
+
+
+/-! ### phrases -/
+
+theorem phraseBody_bs (c : Char) (r : Str) :
+    phraseBody ('\\' :: c :: r) = (phraseBody r).map fun p => ('\\' :: c :: p.1, p.2) := by
+  conv => lhs; unfold phraseBody
+  simp
+
+theorem phraseBody_quote (r : Str) : phraseBody ('"' :: r) = some ([], r) := by
+  conv => lhs; unfold phraseBody
+  simp
+
+theorem phraseBody_cons (c : Char) (r : Str) (h1 : c ≠ '\\') (h2 : c ≠ '"') :
+    phraseBody (c :: r) = (phraseBody r).map fun p => (c :: p.1, p.2) := by
+  conv => lhs; unfold phraseBody
+  simp [h1, h2]
+
+theorem phraseBody_quoted : (p rest : Str) →
+    phraseBody (quotedEscape p ++ '"' :: rest) = some (quotedEscape p, rest)
+  | [], rest => by simp [quotedEscape, phraseBody_quote]
+  | c :: p, rest => by
+    by_cases h : (c == '"' || c == '\\') = true
+    · simp only [quotedEscape, h, if_true, List.cons_append]
+      rw [phraseBody_bs, phraseBody_quoted p rest]; rfl
+    · have h1 : c ≠ '\\' := by intro e; subst e; exact h (by decide)
+      have h2 : c ≠ '"' := by intro e; subst e; exact h (by decide)
+      simp only [quotedEscape, h, Bool.false_eq_true, if_false, List.cons_append]
+      rw [phraseBody_cons c _ h1 h2, phraseBody_quoted p rest]; rfl
+
+theorem phrase_quoted (p rest : Str) :
+    phrase ('"' :: (quotedEscape p ++ '"' :: rest)) = some ('"' :: quotedEscape p ++ ['"'], rest) := by
+  simp [phrase, phraseBody_quoted]
+
+theorem value_quoted (p rest : Str) :
+    value (('"' :: quotedEscape p ++ ['"']) ++ rest) = some (.phrase ('"' :: quotedEscape p ++ ['"']), rest) := by
+  have e : ('"' :: quotedEscape p ++ ['"']) ++ rest = '"' :: (quotedEscape p ++ '"' :: rest) := by simp
+  rw [e]
+  simp only [value, starValue_ne '"' (quotedEscape p ++ '"' :: rest) (by decide), alt_none, phraseValue,
+    phrase_quoted, Option.map_some, alt_some]
+
+theorem visitPhrase_quoted (p : Str) : visitPhrase ('"' :: quotedEscape p ++ ['"']) = p := by
+  simp [visitPhrase, unescape_quotedEscape]
+
+theorem leafGood_quoted (F : FloatLib) (a p : Str) (h : NFLeaf F (.quoted a p) = true) : LeafGood F (.quoted a p) := by
+  simp only [NFLeaf, Bool.and_eq_true] at h
+  obtain ⟨ha, hn⟩ := h
+  obtain ⟨h1, h2⟩ := notReserved_parts hn
+  exact leafGood_attr F (.quoted a p) a ('"' :: quotedEscape p ++ ['"']) (.phrase ('"' :: quotedEscape p ++ ['"']))
+    (by show attrPrefix a ++ ['"'] ++ quotedEscape p ++ ['"'] = attrPrefix a ++ ('"' :: quotedEscape p ++ ['"'])
+        simp only [List.append_assoc, List.cons_append, List.nil_append])
+    ha (fun rest _ => value_quoted p rest) (fun x => rfl) (by simp)
+    (fun _ rest _ => ⟨rfl, rfl, rfl⟩) (fun _ rest _ => rfl)
+    (by simp only [visitValue, h1, h2, if_false, unescape_attr a ha, visitPhrase_quoted])
+
+/-! ### prefixes -/
+
+theorem dropLast_append_singleton (x : Str) (c : Char) : (x ++ [c]).dropLast = x := by
+  simp
+
+theorem leafGood_pfx (F : FloatLib) (a p : Str) (h : NFLeaf F (.pfx a p) = true) : LeafGood F (.pfx a p) := by
+  simp only [NFLeaf, Bool.and_eq_true, Bool.not_eq_true'] at h
+  obtain ⟨⟨ha, hp⟩, hkd⟩ := h
+  obtain ⟨hne, hw, _⟩ := escTermOK_parts hp
+  have hbody : ∀ x, (luceneEscape p ++ ['*']) ++ x = luceneEscape p ++ '*' :: x := by intro x; simp
+  have hscan : ∀ rest, termScan (luceneEscape p ++ '*' :: rest) = some (luceneEscape p, '*' :: rest) :=
+    fun rest => termScan_esc p _ hp (termStop_star rest)
+  refine leafGood_attr F (.pfx a p) a (luceneEscape p ++ ['*']) (.pfx (luceneEscape p ++ ['*']))
+    (by show attrPrefix a ++ luceneEscape p ++ ['*'] = attrPrefix a ++ (luceneEscape p ++ ['*'])
+        simp only [List.append_assoc])
+    ha ?_ ?_ (by simp) ?_ ?_ ?_
+  · intro rest hr
+    rw [hbody]
+    exact value_pfx _ _ rest (termHead_escape p _ hne hw) (termPrefix_of_scan _ _ rest (hscan rest) hr.atTermEnd)
+  · intro x; rw [hbody]; exact skipWs_termHead _ (termHead_escape p _ hne hw)
+  · intro hd rest hr
+    have hk : kwStart p = false := by
+      cases hk : kwStart p with
+      | false => rfl
+      | true => simp [hd, hk] at hkd
+    rw [hbody]
+    have ht := term_esc p ('*' :: rest) hp hk (termStop_star rest)
+    exact ⟨(esc_front p _ hp hk (termStop_star rest)).1,
+      field_none_of_term _ _ _ ht (by intro r' e; simp at e),
+      multiterm_none_of_term _ _ '*' rest ht (Or.inr rfl)⟩
+  · intro hd rest hr
+    have hk : kwStart p = false := by
+      cases hk : kwStart p with
+      | false => rfl
+      | true => simp [hd, hk] at hkd
+    rw [hbody]
+    exact (esc_front p _ hp hk (termStop_star rest)).2.2
+  · simp only [visitValue, visitPrefix, unescape_attr a ha, dropLast_append_singleton, unescape_luceneEscape]
+
 end Search
